@@ -17,9 +17,11 @@ value and the outcome of the rescore query on it.  Everything after that is mode
   /repo 089be57, whose `k` ignored the rescore window);
 * the score mode: scores are always computed (since /repo 8218789, a5f1a65; `legacyScoreSearch`
   keeps the old rule: only under a score sort, custom scoring or explain, else every hit carries 0);
-* the cursor test, which sits in the same `accept` step that feeds the aggregation collectors;
-* `rescore_hits` (window, combination per mode, `None` = removed, re-sort of the first
-  `window_size` of what is left);
+* the cursor test of the `accept` step (hits and `total_hits` only see documents after the cursor;
+  since /repo 5e540f6 the aggregation collectors are fed *before* it — `legacyAggSearch` keeps the
+  old order);
+* `rescore_hits` (window, combination per mode, `None` = removed, re-sort of the surviving window
+  hits; `legacyRescore` = before /repo 87dca91: re-sort of the first `window_size` of what is left);
 * explanation bookkeeping (`final_score`);
 * `collapse_hits` (group order = first occurrence, representative = key-least, inner hits);
 * truncation to `limit` and the look-ahead that decides `next_cursor`;
@@ -199,10 +201,20 @@ def applyResc (o : ScoreOps S) (mode : Mode) (explain : Bool) (h : Hit S) : Opti
     let c := combine o mode h.score r
     some { h with score := c, expl := if explain then some ⟨some (r, c), c⟩ else h.expl }
 
-/-- the code: the window is `min w len`; rejected hits are removed from the vector; then the
-first `min w len'` of **what is left** are sorted — after removals that prefix reaches into
-hits that were never rescored -/
+/-- the code (since /repo 87dca91): the window is `min w len`; rejected hits are removed from the
+vector; then the leading `window − |removed|` hits — exactly the surviving window hits — are
+sorted -/
 def rescore (o : ScoreOps S) (lt : Hit S → Hit S → Bool) (mode : Mode) (explain : Bool) (w : Nat)
+    (hits : List (Hit S)) : List (Hit S) :=
+  if min w hits.length = 0 then hits
+  else
+    let win := (hits.take w).filterMap (applyResc o mode explain)
+    let kept := win ++ hits.drop w
+    isort lt (kept.take win.length) ++ kept.drop win.length
+
+/-- the code before /repo 87dca91: after the removals the first `min w len'` of **what is left**
+were sorted — that prefix reached into hits that were never rescored -/
+def legacyRescore (o : ScoreOps S) (lt : Hit S → Hit S → Bool) (mode : Mode) (explain : Bool) (w : Nat)
     (hits : List (Hit S)) : List (Hit S) :=
   if min w hits.length = 0 then hits
   else
@@ -383,6 +395,20 @@ def seen (o : ScoreOps S) (r : Req S) (h : Hit S) : Hit S :=
 
 /-- the code; `matched` carries the true scores -/
 def search (o : ScoreOps S) (r : Req S) (matched0 : List (Hit S)) : Resp S :=
+  let lt := klt o r.plan
+  let matched := matched0.map (seen o r)
+  let after := afterCursor lt r.cursor matched
+  let p :=
+    if r.returnHits then
+      post o r (rescore o) (fetch lt (isFast r.plan) r.explain (topKOf r) r.nseg after)
+    else ([], none, none)
+  { hits := p.1, total := after.length + returned r.cursor, totalGroups := p.2.1, next := p.2.2,
+    aggTerms := aggTerms matched, aggCount := aggCount r.aggField matched, profile := r.profile }
+
+/-- the code before /repo 5e540f6: the collectors were fed *after* the cursor test of the same
+`accept` step, so on a cursor page they only saw the documents after the cursor; kept for the
+`legacy_…` witness -/
+def legacyAggSearch (o : ScoreOps S) (r : Req S) (matched0 : List (Hit S)) : Resp S :=
   let lt := klt o r.plan
   let matched := matched0.map (seen o r)
   let after := afterCursor lt r.cursor matched
